@@ -7,6 +7,7 @@
 -/
 import XotModel.Lemmas.LexRejectShapes
 import XotModel.Lemmas.SerOptResp
+import XotModel.Lemmas.LexDecl
 
 namespace XotModel.Lex.Canon
 open XotModel.Lex XotModel.Lex.Stream
@@ -237,5 +238,21 @@ theorem lexDocument_lines (ks : List NSNode) (hk : ∀ k ∈ ks, k.isChars = fal
   unfold lexDocument
   rw [e]
   exact lexLoop_lines ks .prolog _ _ (.inl rfl) ⟨rfl, rfl, .inl rfl⟩ hk h.1 h.2 rfl
+
+/-- The same behind an XML declaration. -/
+theorem lexDocument_declaration_lines (d : Declaration) (ks : List NSNode) (hk : ∀ k ∈ ks, k.isChars = false)
+    (h : LexOK false (NSNode.tokens.tokensList ks) = true)
+    (henc : ∀ e, d.encoding = some e → e.all encChar = true) :
+    ∃ v e sa sp ts', lexDocument (d.bytes ++ renderLines ks) =
+        (.declaration ⟨['1', '.', '0'], v⟩ e sa sp :: ts', none) ∧
+      ts'.map Token.erase = (NSNode.tokens.tokensList ks).map Token.erase := by
+  simp only [LexOK, Bool.and_eq_true] at h
+  obtain ⟨v, e, sa, sp, q, hl⟩ := lexDocument_declaration_then d (renderLines ks) henc
+  obtain ⟨tk', hm', hst', hl'⟩ := lexLoop_skip_nl .prolog (.inl rfl)
+    ⟨⟨q, '\n' :: renderLines ks⟩, .afterDeclaration, 0, false⟩ q q (renderLines ks)
+    ⟨rfl, rfl, .inr (.inl rfl)⟩ rfl (renderLines_stops ks hk)
+  obtain ⟨ts', hl2, he2⟩ := lexLoop_lines ks .prolog tk' q (.inl rfl) hm' hk h.1 h.2 (by rw [hst'])
+  refine ⟨v, e, sa, sp, ts', ?_, he2⟩
+  rw [hl, hl', hl2]
 
 end XotModel
